@@ -141,6 +141,26 @@ CLAIMS = {
    note="Not decided: numeric shape/Kron formulas. One genuine defect found by T-AXIS was fixed (background_centroid sampled at (x, y)).",
    technique="normal forms + frame/axis tag systems + sibling agreement + loop-carried dependence (AST)",
    design="4 C07"),
+ 'C03': dict(
+   text="The two slips the property names are decided structurally over the 19 anchored modules: T-FRAME (every (X, cutout_X) property "
+        "pair of SourceCatalog/ApertureStats differs by exactly the bounding-box/slice origin; no cutout-relative getter reads an image-frame "
+        "position) and T-AXIS/T-MIRROR (x/y pairing of keywords, assignments, 2-D subscripts, comparisons with shape/slice extents, ordered "
+        "pairs incl. external coordinate-order models; copy-paste signatures between mirrored statements and sibling definitions), plus "
+        "finder cutout extraction around (y, x) and per-axis loops covering both axes.",
+   note="Not decided: invariance of fluxes/shapes under the shift and theta -> 90deg - theta (numerical). The tag system is silent on names "
+        "outside the repository's x/y conventions.",
+   technique="axis and frame tag systems (abstract interpretation over names) + mirror/copy-paste detection (AST)",
+   design="4 C03, 3.7"),
+ 'C11': dict(
+   text="Mask-blindness plumbing decided structurally, values not claimed: each of the four box blocks takes a copy of the same region of "
+        "data and mask and NaN-fills it with its own mask before the statistics (LP4); every exclusion applied to the background mesh is "
+        "applied to the RMS mesh (MIRROR) and no local is assigned-but-unread (DEADSTORE); masks are unions on every path built as new "
+        "arrays (D1); coverage fill after interpolation (D2); bottleneck/numpy dispatch tables agree and only float64 goes to bottleneck "
+        "(SIB/SPEC); cache coherence and kill/use of the meshes (L1/L3); A1 on the background modules.",
+   note="Not decided: finiteness, exact constant reproduction, equivariance, clipping range, IDW values. Background2D's estimator "
+        "sigma_clip reset is a C10 known finding.",
+   technique="paired-region rule + mirror statements + dead-store lint + normal forms + typestate (AST)",
+   design="4 C11"),
 }
 
 fix_commits = subprocess.run(['git', '-C', '/repo', 'log', '--format=%h %s', '8203d59..HEAD'],
